@@ -70,21 +70,40 @@ func newValue(root string) (reflect.Value, error) {
 	return reflect.New(t), nil
 }
 
-// scanAll runs the real streaming scanner over the text and returns the objects it yields.
-func scanAll(text []byte) ([]interface{}, string) {
+// scanAll runs the real streaming scanner over the text.  Every object handed out by Scan()/Object() is RETAINED and
+// reflected into a generic value only after the scan has ended (a caller may keep the objects; whatever the scanner does
+// to them afterwards is part of what it "yields").  A snapshot taken at yield time is compared with the final reading:
+// mutated = some object changed behind the caller's back.
+func scanAll(text []byte) (objs []interface{}, errtxt string, mutated bool) {
 	sc := osmxml.New(context.Background(), bytes.NewReader(text))
 	defer sc.Close()
-	out := []interface{}{}
+	var kept []osm.Object
+	var early [][]byte
 	for sc.Scan() {
 		o := sc.Object()
-		v := reflect.ValueOf(o)
-		if v.Kind() != reflect.Ptr || v.IsNil() {
-			out = append(out, obj{"T": "?", "f": obj{}})
-			continue
-		}
-		out = append(out, obj{"T": v.Elem().Type().Name(), "f": syms.Read(v.Elem())})
+		kept = append(kept, o)
+		snap, _ := json.Marshal(readObject(o))
+		early = append(early, snap)
 	}
-	return out, errText(sc.Err())
+	errtxt = errText(sc.Err())
+	objs = []interface{}{}
+	for i, o := range kept {
+		v := readObject(o)
+		late, _ := json.Marshal(v)
+		if !bytes.Equal(late, early[i]) {
+			mutated = true
+		}
+		objs = append(objs, v)
+	}
+	return objs, errtxt, mutated
+}
+
+func readObject(o osm.Object) interface{} {
+	v := reflect.ValueOf(o)
+	if v.Kind() != reflect.Ptr || v.IsNil() {
+		return obj{"T": "?", "f": obj{}}
+	}
+	return obj{"T": v.Elem().Type().Name(), "f": syms.Read(v.Elem())}
 }
 
 // crashed: a panic in the library while running a case is the abstract outcome "crash"
@@ -124,7 +143,7 @@ func runC03(i int, line []byte, lay int) (res interface{}) {
 	werr := xml.Unmarshal(text, pv.Interface())
 	got["werr"] = errText(werr)
 	got["whole"] = syms.Read(pv.Elem())
-	got["stream"], got["serr"] = scanAll(text)
+	got["stream"], got["serr"], got["smut"] = scanAll(text)
 	if *dump {
 		got["text"] = string(text)
 	}
@@ -148,7 +167,7 @@ func runC04(i int, line []byte) (res interface{}) {
 	pv, err := newValue(c.Root)
 	vio.Must(err, "root")
 	vio.Must(syms.Build(pv.Elem(), c.V), "build value")
-	got := obj{"tree": []interface{}{}, "un": []interface{}{}, "scan": []interface{}{}, "uerr": "", "serr": "", "perr": ""}
+	got := obj{"tree": []interface{}{}, "un": []interface{}{}, "scan": []interface{}{}, "uerr": "", "serr": "", "perr": "", "smut": false}
 	text, merr := xml.Marshal(pv.Interface())
 	got["merr"] = errText(merr)
 	if merr == nil {
@@ -161,7 +180,7 @@ func runC04(i int, line []byte) (res interface{}) {
 		uerr := xml.Unmarshal(text, back.Interface())
 		got["uerr"] = errText(uerr)
 		got["un"] = []interface{}{syms.Read(back.Elem())}
-		got["scan"], got["serr"] = scanAll(text)
+		got["scan"], got["serr"], got["smut"] = scanAll(text)
 	}
 	if *dump {
 		got["text"] = string(text)
